@@ -12,7 +12,7 @@ Three lemma families are built on these definitions (one joint induction over al
   function started before `n` gets past the `=`: successful entry-level runs end at or before `n`, failing runs
   report a cursor `≤ E`; hence the entry loop, started anywhere `≤ n`, arrives at `n` exactly.
 * `ParserLocalPre*.lean` — **prefix**: if `s₁` ends with a line feed at `n = s₁.size` and `s₂` agrees with `s₁` below
-  `n` and has the end of input or a letter / `-` at `n` (`Pre n s₁ s₂`), every successful entry-level run on `s₁`
+  `n` and has the end of input or a `stopByte` at `n` (`Pre n s₁ s₂`), every successful entry-level run on `s₁`
   is reproduced on `s₂`.
 -/
 namespace FluentProofs.Parser
@@ -95,15 +95,23 @@ structure Bar (s : Src) (n E : Nat) : Prop where
   head : ∀ i, n ≤ i → i < E → ∃ b, s[i]? = some b ∧ (isIdentByte b = true ∨ b = 32)
   eq : s[E]? = some 61
 
-/-! ## prefix: `s₂` continues `s₁` after its final line feed with end of input or an entry start -/
+/-! ## prefix: `s₂` continues `s₁` after its final line feed with end of input or a `stopByte` -/
+
+/-- a byte that, at a line start right after a complete entry, ends that entry exactly as the end of input does -/
+def stopByte (b : UInt8) : Bool :=
+  b != 32 && b != 10 && b != 13 && b != 35 && b != 46 && b != 123 && (b &&& 0xC0) != 0x80
+
+theorem stopByte_of_isReal : ∀ b : UInt8, isReal b = true → stopByte b = true := by
+  apply forall_uint8; decide +kernel
 
 /-- `s₁` has size `n` and (unless empty) ends with a line feed; `s₂` agrees with `s₁` below `n` and has the end of
-input or a letter / `-` at `n`. -/
+input or a `stopByte` (anything but a space, LF, CR, `#`, `.`, `{` or a UTF-8 continuation byte; in particular a
+letter or `-`) at `n`. -/
 structure Pre (n : Nat) (s₁ s₂ : Src) : Prop where
   size : s₁.size = n
   get : ∀ i, i < n → s₂[i]? = s₁[i]?
   ls : LS s₁ n
-  stop : s₂.size = n ∨ ∃ b, s₂[n]? = some b ∧ isReal b = true
+  stop : s₂.size = n ∨ ∃ b, s₂[n]? = some b ∧ stopByte b = true
 
 /-! ## the pending comment of the full parser's entry loop -/
 
